@@ -1,8 +1,24 @@
-"""Growth check: the MQTT data handler (src/ebusd/mqtthandler.cpp, datahandler.cpp) - no listed property; never a VIOLATION.
-(work in progress: build helper)"""
+"""Growth check: the MQTT data handler (src/ebusd/mqtthandler.cpp, datahandler.cpp, the sink feed of MainLoop::run) - no listed
+property; never a VIOLATION.
+
+P = spec/MqttHandler.tla part P: a monitor over observables (events of a session; what the handler asked its MQTT client to publish /
+subscribe; every telegram on the bus; poll priorities), written from the documentation that is in the repository (`--help` texts of the
+mqtt options, ChangeLog.md, contrib/etc/ebusd/mqtt-integration.cfg / mqtt-hassio.cfg, interface comments of datahandler.h /
+mqttclient.h).  S = part S: the handler as coded, with a set FIX of corrections.
+(0) spec/MC_MqttHandler: TLC explores S in lock-step with the monitor over every event sequence up to 3 (4) events from a 16-letter
+    alphabet in 8 small worlds: S(all corrections) => P must hold, S(as coded) must be rejected; thorough: leaving out any single
+    correction must be rejected as well (each documented-vs-coded difference is reachable at design level).
+(1) spec/MqttGen emits worlds (2 message families x option sets) and sessions; harness/grow_mqtt.cpp replays them on the REAL MqttHandler
+    inside the in-process daemon of harness/c16_daemon.h.  The harness is linked WITHOUT mqttclient.cpp / mqttclient_mosquitto.cpp and
+    supplies `MqttClient::create` (fake client: records publish/subscribe, injects incoming topics and connection state, steps the real
+    run() loop one iteration at a time); one forked process per session.
+(2) spec/MqttJudge: TLC judges every record with the monitor (classes of disagreement with the documentation, each with count and a
+    minimal witness) and compares it with S as coded (DRIFT).
+`run_growth(ctx)` returns a coverage dict and appends its findings to ctx.drift as "GROWTH mqtt: ..." notes; `run(ctx)` makes it
+runnable on its own (bin/check grow_mqtt).  The classes the pinned tree shows are listed in BASELINE: they are by-catch for the lead
+to judge; a class that is not in BASELINE is reported as NEW."""
 import concurrent.futures as cf
 import hashlib
-import json
 import os
 import subprocess
 import sys
@@ -13,6 +29,41 @@ from vf import build, recs, tlc
 # the daemon without main.cpp and WITHOUT the mosquitto client: harness/grow_mqtt.cpp supplies MqttClient::create (mock seam)
 EBUSD_NO_MQTTCLIENT = [s for s in build.GROUPS["ebusd"] if "mqttclient" not in s]
 SRC_GROUPS = ["ebus", "utils_noclock", "knx"]
+
+ALL_FIXES = ["version-flags", "empty-qos", "changed-window", "publish-once", "scan-connected", "short-keys", "global-prefix",
+             "set-needs-write", "store-after-send", "match-all", "global-def-field"]
+
+# classes of disagreement between the documented behaviour and the pinned code (what each means); by-catch, not violations
+BASELINE = {
+    "qos-differs-from-mqttqos:version": "global/version is published with qos 1 and not retained: notifyMqttStatus passes `true` in the qos "
+                                        "position of MqttClient::publishTopic(topic, data, qos, retain) (--mqttqos: 'for all topics')",
+    "retain:global-not-retained:version": "same call: with --mqttretain ('retain all topics') global/version is still not retained",
+    "qos-differs-from-mqttqos:message-without-data": "publishEmptyTopic always uses qos 0 (--mqttqos: 'for all topics')",
+    "payload:json-short": "--mqttjson=short ('value directly below field key') uses the field index as key (\"0\":21) although the field is "
+                          "named (mqtt-integration.cfg: the field name is the key for JSON objects unless missing or not unique)",
+    "connect:running-not-published": "--mqttglobal=gl/ ('use TOPIC for global data', default 'global/' is a prefix): without %name in it every "
+                                     "global item collapses to the topic itself and only `running` is published (on 'gl/')",
+    "publish-to-undocumented-topic": "same: `running` is published on the bare --mqttglobal text",
+    "publish-while-disconnected": "the scan status is published from the main loop's thread while the broker connection is down",
+    "republished-after-request-answer": "the answer of a /get or /set is published at once and a second time when the main loop reports the "
+                                        "same update (one update, two publishes)",
+    "republished-without-new-update": "an update that arrives between the sink feed and the handler's flush is published with the earlier "
+                                      "notification and again with its own (and after topics with trailing text, see below)",
+    "update-not-published": "--mqttchanges: a change is lost when the message is updated again (unchanged) in the next second before the "
+                            "main loop's sink feed ran: `changed` is judged against the start of a window the change never was in; also: a "
+                            "telegram of a message forgets the pending update of its read/write pendant of the same name (invalidateCache)",
+    "request:nothing:set-on-message-without-write-definition:unexpected-publish": "/set on a name that only has a passive definition "
+                                                                                   "re-publishes the passive value (no write happens)",
+    "value-of-a-set-that-was-never-sent-is-published": "/set without bus signal: nothing is sent, yet the value is stored by prepareMaster and "
+                                                       "published as if it had been written",
+    "request:nothing:get-unknown-message:unexpected-telegram": "topic template with text behind %name: trailing topic levels are ignored "
+                                                                "(hp/ca_two/x/b/get reads ca/two)",
+    "poll-priority": "same: the poll priority of that message is set",
+    "definition:global:field-variable-not-set": "integration file with def_global-topic = %prefixn/config/global/%FIELD as in the shipped "
+                                                "mqtt-integration.cfg: %field is not set for the global items, all six definitions go to the one "
+                                                "topic .../config/global/ (mqtt-hassio.cfg uses %TOPIC instead)",
+    "definition:global:missing": "same: no global item gets a definition topic of its own",
+}
 
 
 def build_harness():
@@ -39,5 +90,215 @@ def build_harness():
     return exe
 
 
-if __name__ == "__main__":
-    print(build_harness())
+def vf_lines(out):
+    """PrintT values wider than a line are wrapped by TLC: collect from a line starting with << "VF" until the brackets balance"""
+    res, cur, depth = [], None, 0
+    for line in out.splitlines():
+        t = line.strip()
+        if cur is None:
+            if t.startswith('<<"VF"') or t.startswith('<< "VF"'):
+                cur, depth = "", 0
+            else:
+                continue
+        cur += " " + t
+        depth += t.count("<<") + t.count("{") + t.count("[") - t.count(">>") - t.count("}") - t.count("]")
+        if depth <= 0:
+            res.append(tlc.parse_tla_value(cur.strip()))
+            cur = None
+    return res
+
+
+def _txt(c):
+    return "".join(chr(x) for x in c)
+
+
+def _cls(c):
+    return ":".join(x if isinstance(x, str) else _txt(x) for x in c if x != "")
+
+
+def _ev(e):
+    if e["e"] == "T":
+        return "+%ds" % e["n"]
+    if e["e"] == "U":
+        return "bus:m%d=%s" % (e["m"], e["v"])
+    if e["e"] == "R":
+        return "client-read:m%d" % e["m"]
+    if e["e"] == "I":
+        return "mqtt-in:base%d/%s%s%s" % (e["b"], _txt(e["d"]), _txt(e["a"]), (" '" + _txt(e["pl"]) + "'") if e["pl"] else "")
+    return {"F": "feed", "M": "iterate", "D": "broker-down", "B": "broker-up"}.get(e["e"], e["e"])
+
+
+def _outs(o):
+    r = []
+    for x in o["outs"]:
+        if x["k"] == "bus":
+            r.append("tg %s/%s" % (bytes(x["t"]).hex(), bytes(x["p"]).hex()))
+        elif x["k"] == "run":
+            r.append("client.run %d>%d%s" % (x["r"], x["q"], " connack" if x["e"] else ""))
+        elif x["k"] == "pub":
+            r.append("pub %s=%r%s%s" % (_txt(x["t"]), _txt(x["p"])[:60], " retain" if x["r"] else "", (" qos%d" % x["q"]) if x["q"] else ""))
+        elif x["k"] == "in":
+            r.append("deliver %s" % _txt(x["t"]))
+        else:
+            r.append("%s %s" % (x["k"], _txt(x["t"])))
+    return "; ".join(r)
+
+
+def _witness(w, s, r, k):
+    k = max(1, min(k, len(s["ev"])))
+    steps = ["%s%s" % (_ev(e), (" -> " + _outs(o)) if o["outs"] else "") for e, o in zip(s["ev"][:k], r["o"][1:k + 1])]
+    return {"options": " ".join(_txt(a) for a in w["args"][2:]) or "(defaults)", "no_signal": w["nosig"], "broker_down_at_start": w["brokerdown"],
+            "event": k, "steps": steps}
+
+
+def _mc_cfg(wd, name, depth, fix, show, wsel="{1, 2, 3, 4, 5, 6, 7, 8}"):
+    path = os.path.join(wd, name + ".cfg")
+    with open(path, "w") as f:
+        f.write("INIT Init\nNEXT Next\n%sINVARIANT McOk\nCONSTANT DEPTH = %d\nCONSTANT WSEL = %s\nCONSTANT MCHIST = FALSE\nCONSTANT FIX = {%s}\n"
+                % ("INVARIANT McShow\n" if show else "", depth, wsel, ", ".join('"%s"' % x for x in fix)))
+    return path
+
+
+def run_growth(ctx):
+    t00 = time.time()
+    wt = os.environ.get("VERIF_WORKTAG", "")
+    wd = recs.workdir("GROWMQTT" + wt)
+    tier = ctx.tier
+    jobs = int(os.environ.get("VERIF_JOBS_MQTT", "8"))
+    exe = build_harness()
+    notes = []
+
+    # ---- (0) S => P at design level -------------------------------------------------------------------------------------
+    depth = 4 if ctx.thorough else 3
+    mc = tlc.run("MC_MqttHandler", _mc_cfg(wd, "mc-doc", depth, ALL_FIXES, False), workers=jobs, timeout=1500, heap="8g", tag="GROWMQTT" + wt + "-mc")
+    if mc["violated"]:
+        raise tlc.TlcFailure("MqttHandler: S(all corrections) => P does not hold (model or oracle wrong):\n" + mc["out"][-2500:])
+    mcp = tlc.run("MC_MqttHandler", _mc_cfg(wd, "mc-pinned", 2, [], True), workers=2, timeout=600, heap="4g", tag="GROWMQTT" + wt + "-mcp")
+    pinned_rejected = "McOk" in mcp["violated"]
+    if not pinned_rejected:
+        notes.append("the handler as modelled from the code (S, no corrections) is now accepted by the monitor at design level")
+    needed = {}
+    if ctx.thorough:
+        for fx in ALL_FIXES:
+            # changed-window needs 4 events (update, tick, same update, feed) in the --mqttchanges world; the others show within 3
+            d, ws = (4, "{2}") if fx == "changed-window" else (3, "{1, 2, 3, 4, 5, 6, 7, 8}")
+            r1 = tlc.run("MC_MqttHandler", _mc_cfg(wd, "mc-wo", d, [x for x in ALL_FIXES if x != fx], True, ws), workers=jobs, timeout=900, heap="6g",
+                         tag="GROWMQTT" + wt + "-mcw")
+            cls = sorted({_cls(c) for v in vf_lines(r1["out"]) if v[1] == "CLS" for c in v[2]})
+            needed[fx] = cls
+            if "McOk" not in r1["violated"]:
+                raise tlc.TlcFailure("MqttHandler: S without the correction '%s' is accepted by the monitor (vacuous clause?)" % fx)
+    ctx.log("mqtt: S(corrected) => P: %d states, %d transitions at depth %d; S(as coded) %s (%.1fs)"
+            % (mc["distinct"], mc["generated"], depth, "rejected by P" if pinned_rejected else "accepted", time.time() - t00))
+
+    # ---- (1) generated sessions on the real handler ---------------------------------------------------------------------
+    t0 = time.time()
+    wf, sf, rf, pf = wd + "/worlds.ndjson", wd + "/sessions.ndjson", wd + "/recs.ndjson", wd + "/pairs.ndjson"
+    gen = tlc.run("MqttGen", "MqttGen.cfg", env={"VF_TIER": tier, "VF_WORLDS": wf, "VF_SESSIONS": sf}, workers=1, timeout=900, heap="6g",
+                  tag="GROWMQTT" + wt + "-gen")
+    if not [v for v in gen["vf"] if v[1] == "GEN"]:
+        raise tlc.TlcFailure("MqttGen printed no GEN line:\n" + gen["out"][-1500:])
+    worlds, sessions = recs.read_ndjson(wf), recs.read_ndjson(sf)
+    hd = wd + "/h"
+    os.makedirs(hd, exist_ok=True)
+    try:
+        recs.run_harness(ctx, exe, ["run", rf, wf, sf, hd, jobs], timeout=1500)
+    except RuntimeError as e:
+        ctx.drift.append("GROWTH mqtt: the harness could not replay the generated sessions on the real handler: " + str(e)[-600:])
+        return {"crashed": True}
+    rr = recs.read_ndjson(rf)
+    t_h = time.time() - t0
+
+    # ---- (2) TLC judges ---------------------------------------------------------------------------------------------------
+    t1 = time.time()
+    with open(pf, "w") as f:
+        for r in rr:
+            f.write('{"w":%d,"s":%d}\n' % (r["w"], r["s"]))
+    shards = recs.split_file(rf, 6000)
+    vfs, states, trans = [], 0, 0
+    off = 0
+    for sh in shards:
+        res = tlc.run("MqttJudge", "MqttJudge.cfg", env={"VF_TIER": tier, "VF_WORLDS": wf, "VF_SESSIONS": sf, "VF_RECS": sh, "VF_PAIRS": pf},
+                      workers=jobs, timeout=1500, heap="8g", cont=True, tag="GROWMQTT" + wt + "-j")
+        n = sum(1 for _ in open(sh))
+        for v in vf_lines(res["out"]):
+            if v[1] in ("BAD", "DRIFT"):
+                v[2] += off
+                vfs.append(v)
+        if res["violated"] and not [v for v in vfs if v[1] == "BAD"]:
+            raise tlc.TlcFailure("MqttJudge: invariant violated without BAD line:\n" + res["out"][-2500:])
+        states += res["distinct"]
+        trans += res["generated"]
+        off += n
+    classes = {}
+    crashed = 0
+    for v in vfs:
+        if v[1] != "BAD":
+            continue
+        idx, k, c = v[2], v[3], _cls(v[4])
+        r = rr[idx - 1]
+        if "crash" in r:
+            crashed += 1
+        e = classes.setdefault(c, {"count": 0, "worlds": set(), "w": None})
+        e["count"] += 1
+        e["worlds"].add(r["w"])
+        rank = (len(sessions[r["s"] - 1]["ev"]), k, idx)
+        if e["w"] is None or rank < e["w"][0]:
+            e["w"] = (rank, idx, k)
+    drift = [v for v in vfs if v[1] == "DRIFT"]
+    nev = sum(len(r["o"]) - 1 for r in rr)
+    npub = sum(1 for r in rr for o in r["o"] for x in o["outs"] if x["k"] == "pub")
+    ntg = sum(1 for r in rr for o in r["o"] for x in o["outs"] if x["k"] == "bus")
+    distinct = {(r["w"], tuple((tuple(x["t"]), tuple(x["p"]), x["r"], x["q"]) for x in o["outs"] if x["k"] in ("pub", "bus", "sub")))
+                for r in rr for o in r["o"] if o["outs"]}
+    found = {}
+    for c, e in sorted(classes.items()):
+        _, idx, k = e["w"]
+        r = rr[idx - 1]
+        wit = _witness(worlds[r["w"] - 1], sessions[r["s"] - 1], r, k)
+        found[c] = {"count": e["count"], "worlds": len(e["worlds"]), "baseline": c in BASELINE, "meaning": BASELINE.get(c, ""), "witness": wit}
+        ctx.drift.append("GROWTH mqtt: %s%d sessions (%d worlds) disagree with the documentation [%s]%s, e.g. with %s: %s"
+                         % ("" if c in BASELINE else "NEW: ", e["count"], len(e["worlds"]), c, (" = " + BASELINE[c]) if c in BASELINE else "",
+                            wit["options"], " | ".join(wit["steps"])[:700]))
+    for c in sorted(set(BASELINE) - set(classes)):
+        ctx.drift.append("GROWTH mqtt: GONE: the class [%s] of the baseline no longer occurs (%s)" % (c, BASELINE[c][:120]))
+    if drift:
+        byk = sorted(drift, key=lambda v: (len(sessions[rr[v[2] - 1]["s"] - 1]["ev"]), v[3]))
+        idx, k = byk[0][2], byk[0][3]
+        r = rr[idx - 1]
+        wit = _witness(worlds[r["w"] - 1], sessions[r["s"] - 1], r, k)
+        ctx.drift.append("GROWTH mqtt: %d sessions differ from the handler as modelled (S), first at event %d with %s: %s"
+                         % (len(drift), k, wit["options"], " | ".join(wit["steps"])[:700]))
+    if crashed:
+        ctx.drift.append("GROWTH mqtt: the daemon process died in %d sessions" % crashed)
+    for n in notes:
+        ctx.drift.append("GROWTH mqtt: " + n)
+    ctx.log("mqtt: %d worlds, %d sessions -> %d records (%d events, %d publishes, %d telegrams; harness %.1fs) judged in %.1fs: %d classes "
+            "(%d not in the baseline), %d records differ from S" % (len(worlds), len(sessions), len(rr), nev, npub, ntg, t_h, time.time() - t1,
+                                                                   len(classes), len([c for c in classes if c not in BASELINE]), len(drift)))
+    sample = rr[len(rr) // 2]
+    return {
+        "states": mc["distinct"] + states, "transitions": mc["generated"] + trans,
+        "traces_validated_against_impl": len(rr), "events_replayed": nev, "publishes_judged": npub, "telegrams_judged": ntg,
+        "distinct_nontrivial": len(distinct), "rule": "distinct (world, outputs of one event) with at least one publish/subscribe/telegram",
+        "evaluations": nev, "worlds": len(worlds), "sessions": len(sessions),
+        "mc": {"S_corrected_implies_P": True, "depth": depth, "states": mc["distinct"], "transitions": mc["generated"],
+               "S_as_coded_rejected_by_P": pinned_rejected, "class_when_a_correction_is_left_out": needed},
+        "documentation_disagreements": found, "new_classes": sorted(c for c in classes if c not in BASELINE),
+        "gone_classes": sorted(set(BASELINE) - set(classes)),
+        "s_conforms": not drift, "s_drift_records": len(drift),
+        "sample": _witness(worlds[sample["w"] - 1], sessions[sample["s"] - 1], sample, len(sessions[sample["s"] - 1]["ev"])),
+        "wall_s": round(time.time() - t00, 1),
+    }
+
+
+def run(ctx):
+    """stand-alone entry (bin/check grow_mqtt): same work, the coverage dict becomes the evidence"""
+    ctx.level = "model_checking"
+    cov = run_growth(ctx)
+    cov.setdefault("samples", [cov.pop("sample", None)])
+    ctx.coverage = cov
+    ctx.assumptions = ["growth check: no listed property; disagreements with the documentation are drift notes, nothing here is a violation",
+                       "the MQTT client is a fake (mock seam MqttClient::create) whose contract follows MqttClientMosquitto: CONNACK, incoming "
+                       "messages and connection loss are delivered from inside run()",
+                       "one handler loop iteration per step; time() is virtual; no wall-clock enters a verdict"]
